@@ -100,6 +100,12 @@ def modelid(x):
     return x
 
 
+class _Quiet(dict):
+    """Observation of a step at which the world was deliberately not queried: absent facets are not compared."""
+    def get(self, k, default=None):
+        return dict.get(self, k, SKIP)
+
+
 class WorldAdapter:
     multi = True      # track every model state that explains the observations so far (replay.walk)
     needs_pre = ('SetEnabledFault',)
@@ -128,6 +134,8 @@ class WorldAdapter:
         env.probe_killer = None
         env.reentrant = None
         env.w = desper.World()
+        env.step_no = 0
+        env.quiet = 3 if (self.counter % 5 == 3 and getattr(self, 'allow_quiet', True)) else 0
         env.blog = []
         bcomp = desper.event_handler('on_add', 'on_remove', 'probe')(
             type('ByComp', (), {'on_add': lambda s_, e, w_: env.blog.append('on_add'), 'on_remove': lambda s_, e, w_: env.blog.append('on_remove'),
@@ -445,6 +453,12 @@ class WorldAdapter:
     def observe(self, ret, name, args, pre):
         env, K = self.env, self.K
         w = env.w
+        env.step_no += 1
+        if env.step_no <= env.quiet:
+            # looking is not free of effects (lazily maintained state is brought up to date by a read): in some
+            # behaviours the first calls are made WITHOUT looking at the world in between - only what the calls
+            # return and what the callbacks report is compared, every query waits for the first observed step
+            return _Quiet(ret=ret, log=tuple(env.log))
         tn = {v: k for k, v in env.types.items()}
         obs = {'ret': ret}
         get = {}
